@@ -487,6 +487,14 @@ func (c *c05) newSCT(k *verifkit.SKey) sctCase {
 	copy(s.ikh[:], r.Bytes(32))
 	s.cert = r.Bytes(c05Lens[r.Intn(len(c05Lens))])
 	s.tbs = r.Bytes(c05Lens[r.Intn(len(c05Lens))])
+	if r.Intn(4) == 0 { // around and beyond the 2-octet boundary of the 3-octet length prefix
+		big := r.Bytes([]int{65535, 65536, 65537, 70000, 131072}[r.Intn(5)])
+		if s.etype == 0 {
+			s.cert = big
+		} else {
+			s.tbs = big
+		}
+	}
 	switch r.Intn(6) {
 	case 0:
 		s.ext = r.Bytes(1 + r.Intn(40))
@@ -512,7 +520,7 @@ func (c *c05) checkSCT(class string, k *verifkit.SKey, sv *ct.SignatureVerifier,
 	} else if err == nil {
 		ans = verifkit.Hex(in)
 	}
-	if len(s.cert)+len(s.tbs)+len(s.ext) < 3000 || c.r.Intn(8) == 0 {
+	if len(s.cert)+len(s.tbs)+len(s.ext) < 3000 || (c.r.Intn(8) == 0 && len(s.cert)+len(s.tbs) < 200000) {
 		c.out.T("sctin "+s.fields(), ans)
 	}
 	if p != "" || (err == nil) != (want != nil) || (err == nil && string(in) != string(want)) {
@@ -524,7 +532,9 @@ func (c *c05) checkSCT(class string, k *verifkit.SKey, sv *ct.SignatureVerifier,
 	}
 	p = verifkit.Guard(func() { err = sv.VerifySCTSignature(sct, entry) })
 	got := outcome(err, p)
-	c.out.T("vsct "+vline(k, false, s.hash, s.alg, v, s.sig)+" "+s.fields(), got)
+	if len(s.cert)+len(s.tbs)+len(s.ext) < 3000 || class == "genuine" { // large entries: one line per genuine case, the oracle below judges all
+		c.out.T("vsct "+vline(k, false, s.hash, s.alg, v, s.sig)+" "+s.fields(), got)
+	}
 	c.out.Count("class:sct:" + class)
 	c.out.Count("outcome:" + got)
 	exp := "err"
